@@ -9,7 +9,7 @@ from checks import common as c
 from checks import topogen as tg
 
 SPACE = dict({'graph': list(tg.GRAPHS), 'chain': tg.CHAINS, 'chain_rev': ['F80', 'F200', 'F40_U_F30', 'E_F80', 'F10'],
-              'eq': ['test', 'example']}, **tg.SPAN_SPACE)
+              'eq': ['test', 'example', 'multiband'], 'bands': ['C', 'CL']}, **tg.SPAN_SPACE)
 
 
 def original_fibres(topo):
@@ -50,6 +50,8 @@ def run_case(case):
             tb = traceback.format_exc()
             frames = [ln.strip() for ln in tb.strip().split('\n') if ln.strip().startswith('File "')]
             site = frames[-1].split(', in ')[-1] if frames else ''
+            if 'amps do not belong to the same amp type' in str(exc):
+                site = 'multiband-amps-of-different-types'
             v(f'design-raised:{type(exc).__name__}:{site}', f'designed_network raised {type(exc).__name__}: {str(exc)[:160]} on '
               f'a well-formed topology (chain {case["chain"]} / {case["chain_rev"]}, Span padding {case["padding"]} max_length '
               f'{case["max_length"]})')
@@ -179,10 +181,13 @@ def reach(net):
 
 def main(rep, tier, seed):
     sp = engine.Space(SPACE, bases=[{}, {'graph': 'P3', 'chain': 'F200', 'max_length': 90, 'eq': 'example'},
+                                    {'eq': 'multiband', 'bands': 'CL', 'chain': 'F80_F60'},
                                     {'graph': 'TRI', 'chain': 'F40_U_F30', 'mode': 'gain', 'padding': 16}],
-                      constraint=tg.consistent)
+                      constraint=lambda x: tg.consistent(x) and not (x['bands'] == 'CL' and x['eq'] != 'multiband') and
+                      not (x['eq'] == 'multiband' and (tg.has_raman(x['chain']) or x['chain'].startswith('E') or '_E' in x['chain']
+                                                       or x['chain_rev'].startswith('E'))))
     d = 2 if tier == 'quick' else 3
-    bases = engine.pick_bases(sp.bases, seed, tier, n_quick=2)
+    bases = engine.pick_bases(sp.bases, seed, tier, n_quick=3)
     cases = [{k: x[k] for k in SPACE} for x in sp.enumerate(d, bases=bases)]
     results, stats = engine.run_pool('checks.c08', cases, horizon=300)
     rep.absorb(results)
